@@ -152,9 +152,19 @@ def trace (env : Env) (s : Sk) : List MEv := (unroll env s).1 ++ (unroll env s).
 
 def dummyEnv : Env := ⟨0, 0, true, fun _ => false, 0, .other "chRes", fun _ _ => [], fun _ => []⟩
 
-/-- trace of a chunk processor started with result channel `c`; `thr` = (`sem != nil`) -/
-def workerTrace (f : Fn) (thr : Bool) (c : Ch) : List Ev :=
-  (trace { dummyEnv with thr := thr, res := c } f.body).flatMap MEv.plain
+/-- the formal parameter `chRes` of a chunk processor -/
+def chResParam : Ch := .other "chRes"
+
+/-- trace of a chunk processor over its formal parameters `sem`, `chRes`; `thr` = (`sem != nil`) -/
+def workerTrace (f : Fn) (thr : Bool) : List Ev :=
+  (trace { dummyEnv with thr := thr, res := chResParam } f.body).flatMap MEv.plain
+
+/-- parameter passing: the formal `chRes` is replaced by the channel of the `go` statement -/
+def Ch.bind (d : Ch) (c : Ch) : Ch := if d = chResParam then c else d
+def Ev.bind (c : Ch) : Ev → Ev
+  | .recv d => .recv (d.bind c)
+  | .send d => .send (d.bind c)
+  | .close d => .close (d.bind c)
 
 /-! ## well-formedness predicates (decidable: `Bool`) -/
 
@@ -183,8 +193,8 @@ def onlyChanOps : Sk → Bool
 * no channel operation is deferred. -/
 def WorkerOK (f : Fn) : Bool :=
   f.chanParams == ["chRes", "sem"] && onlyChanOps f.body && !hasDeferredOp f.body &&
-  workerTrace f true (.other "chRes") == [.recv .sem, .send .sem, .send (.other "chRes")] &&
-  workerTrace f false (.other "chRes") == [.send (.other "chRes")]
+  workerTrace f true == [.recv .sem, .send .sem, .send chResParam] &&
+  workerTrace f false == [.send chResParam]
 
 /-- `msmReduceChunk…(p, c, chChunks)`: receives `chChunks[len-1]`, then `chChunks[j]` for `j = len-2 … 0`: every result channel
 exactly once, nothing else. -/
@@ -261,8 +271,8 @@ def MainOK (ws rs : List Fn) (f : Fn) : Bool :=
   match firstSemMake f.body, firstGo f.body, firstCall f.body with
   | some (cap, t), some cs, some r =>
       f.chanParams == [] && f.body == canonMain cap t cs r && cap.enough && !cs.isEmpty &&
-      cs.all (fun n => ws.any (fun w => w.name == n && WorkerOK w)) &&
-      rs.any (fun g => g.name == r && ReduceOK g)
+      cs.all (fun n => ws.any (fun w => w.name == n) && ws.all (fun w => w.name != n || WorkerOK w)) &&
+      (match rs.find? (fun g => g.name == r) with | some g => ReduceOK g | none => false)
   | _, _, _ => false
 
 /-! ## operational semantics -/
@@ -325,7 +335,7 @@ def capOf (semCap : Nat) : Ch → Nat
 /-- the main trace of `_innerMsm` `f` with reductions `rs`, chunk processors chosen by `pick` -/
 def mainTrace (f : Fn) (rs : List Fn) (K nb : Nat) (thr : Bool) (split : Nat → Bool) (pick : Nat → Fn) : List MEv :=
   let env0 : Env := { dummyEnv with K := K, nb := nb, thr := thr, split := split,
-                                    worker := fun j c => workerTrace (pick j) thr c }
+                                    worker := fun j c => (workerTrace (pick j) thr).map (Ev.bind c) }
   let env : Env := { env0 with calls := fun n => match rs.find? (fun g => g.name == n) with
                                                  | some g => trace env0 g.body
                                                  | none => [] }
